@@ -34,13 +34,17 @@ n=$(awk -v k="$key" '{ if (substr($0, length($0) - length(k)) == " " k) c++ } EN
 seq=$(awk -v k="$key" '{ if (substr($0, length($0) - length(k)) == " " k) { print $1; exit } }' "$ctl/sched")
 fault=$(printf '%s' "$seq" | cut -c$((n+1)))
 [ -z "$fault" ] && fault=o
+# P = like p (fail after writing half), but the command dies by a signal instead of exiting non-zero
+killed=no; [ "$fault" = P ] && { fault=p; killed=yes; }
 echo "$op $fault $key" >> "$ctl/log"
 [ "$fault" = c ] && exit 1
 [ -f "$src" ] || exit 1
 mkdir -p "$dstdir" || exit 1
 if [ "$fault" = p ]; then
   sz=$(wc -c < "$src"); half=$((sz/2))
-  rm -f "$dst"; head -c "$half" "$src" > "$dst"; exit 1
+  rm -f "$dst"; head -c "$half" "$src" > "$dst"
+  [ "$killed" = yes ] && kill -KILL $$
+  exit 1
 fi
 rm -f "$dst"; cat "$src" > "$dst"
 '''
@@ -523,7 +527,7 @@ def gen_scenario(rng, idx, allow_other=True):
         out = {}
         for p in paths:
             if rng.random() < p_fault:
-                out[p] = rng.choice(["c", "p", "p", "op", "oc", "po", "co"])
+                out[p] = rng.choice(["c", "p", "p", "op", "oc", "po", "co", "P", "P", "oP", "Po"])
         return out
 
     def subset(ps, allow_none=True):
@@ -595,12 +599,12 @@ def with_faults(sc, op, frm, to):
     s = json.loads(json.dumps(sc))
     for st in s["steps"]:
         if st["op"] == op and st.get("faults"):
-            st["faults"] = {p: v.replace(frm, to) for p, v in st["faults"].items()}
+            st["faults"] = {p: v.replace(frm, to).replace(frm.upper(), to) for p, v in st["faults"].items()}
     return s
 
 
 def has_fault(st, letters):
-    return any(c in v for v in (st.get("faults") or {}).values() for c in letters)
+    return any(c in v.lower() for v in (st.get("faults") or {}).values() for c in letters)
 
 
 def with_send_force_off(sc):
@@ -685,7 +689,7 @@ def state_class_wrong_object(w, k):
     st_ = w.eff[k - 1]
     partial_dl = set()
     for pth, f in (st_.get("faults") or {}).items():
-        if "p" in f:
+        if "p" in f.lower():
             a_ = w.addr_of(st_["repo"], pth)
             if a_ is not None:
                 partial_dl.add(a_)
